@@ -84,6 +84,11 @@ CLAIMED["C18"] = dict(
    note="The start-time interval is only evaluated when reference time + start delay fits 64 bits (otherwise an error is acceptable).",
    technique="deterministic simulation: real DC configuration and cycle code against the segment model with a harness-controlled reference clock, seeded boundary inputs, two arithmetic profiles", section="DESIGN.md §4 C18")
 
+CLAIMED["C20"] = dict(
+   text="2..8 devices in 2..3 groups brought to OP through the real init/into_op on one MainDevice; 2..4 tasks (process data cycles of different groups, register writes/reads, EEPROM reads, SDO reads/writes on different SubDevices) polled in an order drawn at every await point, per-frame latency 0..500 us so that responses overtake each other, 2..32 frame slots (just enough for one frame per task upwards), frame sizes 192..1514. Oracle: each task's whole result sequence (values, working counters, process images, state lists) equals the sequence of the same task run alone on a clone of the post-initialisation segment, and contains no error.",
+   note="Interleavings are at await-point granularity as the property states; sub-poll interleavings of the PDU loop itself belong to C01/C02. No faults are injected here (the property has none).",
+   technique="deterministic simulation: cooperative tasks on a seeded scheduler, randomised wire latency, sequential oracle on a cloned segment model", section="DESIGN.md §4 C20")
+
 NA = {
  "C19": "pure function of its input (a proc-macro and the code it generates): no schedule, clock, fault, I/O or second party for a simulator to control; input generation alone is not simulation (DESIGN.md §4 C19)",
 }
